@@ -219,6 +219,9 @@ class UnitRegistry:
             new_dimensions = self.lut[symbol][1]
 
         self.lut[symbol] = (float(base_value), new_dimensions) + self.lut[symbol][2:]
+        # working out the new value (a quantity in this registry) may have recomputed
+        # the id from the old table
+        self._unit_system_id = None
         # any cached unit parsed from a string mentioning this symbol is now stale
         self._unit_object_cache.clear()
 
